@@ -123,7 +123,18 @@ func RuleV(c *Ctx) {
 			cl = cls[0]
 			z, isZ := core.ConstInt(cl.init)
 			x, isLen := core.IsLenOf(cl.bound)
-			if !isZ || z != 0 || cl.step != 1 || cl.op != token.LSS || !isLen || vecName(x) == "" || vecName(x) == "result?" {
+			up := isZ && z == 0 && cl.step == 1 && cl.op == token.LSS && isLen && vecName(x) != "" && vecName(x) != "result?"
+			// counting down: i = len(v)-1; i >= 0; i--
+			down := false
+			if sub, isSub := core.StripConv(cl.init).(*ssa.BinOp); isSub && sub.Op == token.SUB && cl.step == -1 {
+				one, isOne := core.ConstInt(sub.Y)
+				lx, isL := core.IsLenOf(sub.X)
+				b0, isB := core.ConstInt(cl.bound)
+				if isOne && one == 1 && isL && vecName(lx) != "" && vecName(lx) != "result?" && isB && ((cl.op == token.GEQ && b0 == 0) || (cl.op == token.GTR && b0 == -1)) {
+					down = true
+				}
+			}
+			if !up && !down {
 				ok = false
 				why = append(why, "the loop does not run i = 0; i < len(a); i++ over the whole vectors")
 			}
